@@ -111,7 +111,7 @@ func hexName(s string) string { return hx.Hex([]byte(s)) }
 func pickTarget(r *hx.Rng) int {
 	switch r.Intn(10) {
 	case 0:
-		return reentrant
+		return hx.Pick(r, []int{reentrant, reentrant, reentrantBatch})
 	case 1:
 		return 5 + r.Intn(numTargets-5)
 	default:
@@ -129,7 +129,15 @@ func pickNotifier(r *hx.Rng) string {
 // armOp is an operation for the re-entrant target to perform from inside HandleNotification.
 func armOp(r *hx.Rng, known *[][]string) string {
 	nn := pickNotifier(r)
-	switch r.Intn(8) {
+	switch r.Intn(14) {
+	case 8, 9:
+		return "notify " + nn + " " + hexName(genName(r, known, false))
+	case 10:
+		return "notifyd " + nn + " " + hexName(genName(r, known, false)) + " " + strconv.Itoa(r.Intn(10))
+	case 11:
+		return "start " + nn
+	case 12, 13:
+		return "end " + nn
 	case 0, 1:
 		return "reg " + nn + " " + strconv.Itoa(pickTarget(r)) + " " + strconv.Itoa(genPrio(r)) + " " + hexName(genName(r, known, true))
 	case 2, 3:
@@ -212,7 +220,36 @@ func (a *area) scenario(r *hx.Rng, emit func(string)) int {
 			e("dump " + strconv.Itoa(n))
 		}
 	}
-	switch r.Intn(9) {
+	switch r.Intn(11) {
+	case 9, 10: // a new batch starts (or the batch ends) from inside a BatchMode callback: the snapshot being delivered
+		// must not share storage with the registry (ind4-c17-b)
+		nn := strconv.Itoa(r.Intn(numNotifiers))
+		k := r.Range(2, 24)
+		e("reg " + nn + " " + strconv.Itoa(reentrantBatch) + " 0 " + hexName("a"))
+		for i := 0; i < k; i++ {
+			e("reg " + nn + " " + strconv.Itoa(hx.Pick(r, []int{1, 3, 4, 7, 13, 16, 19, 22, 25, 28, 31, 34, 37, 40, 43, 46})) + " 0 " + hexName("a"))
+		}
+		for i := 0; i < r.Range(2, 5); i++ {
+			e("start " + nn)
+			switch r.Intn(4) {
+			case 0:
+				e("arm " + nn + " start " + nn)
+			case 1:
+				e("arm " + nn + " end " + nn)
+			case 2:
+				e("arm " + nn + " unreg " + nn + " " + strconv.Itoa(hx.Pick(r, []int{1, 3, 4, 7, reentrantBatch})))
+			default:
+				e("arm " + nn + " notify " + nn + " " + hexName("a.b"))
+			}
+			e("end " + nn)
+			e("end " + nn)
+			e("start " + nn)
+			e("arm " + nn + " start " + nn)
+			e("end " + nn)
+			e("end " + nn)
+			e("end " + nn)
+		}
+		dump(idx(nn, numNotifiers))
 	case 0: // crowd: many targets on one name (sort cut-offs), few distinct priorities, some on the ancestor
 		k := hx.Pick(r, crowdSizes)
 		ps := []int{genPrio(r), genPrio(r), hx.Pick(r, prios)}
@@ -418,10 +455,13 @@ func (a *area) scenario(r *hx.Rng, emit func(string)) int {
 		e("start 0")
 		e("end 0")
 		dump(0)
-	case 6, 7: // re-entrancy: the target changes registrations / flags from inside HandleNotification
+	case 6, 7: // re-entrancy: a target calls back into a notifier from inside HandleNotification / BatchMode
 		nn := strconv.Itoa(r.Intn(2))
 		nm := genName(r, &known, true)
 		e("reg " + nn + " " + strconv.Itoa(reentrant) + " " + strconv.Itoa(genPrio(r)) + " " + hexName(nm))
+		if r.Bool() {
+			e("reg " + nn + " " + strconv.Itoa(reentrantBatch) + " " + strconv.Itoa(genPrio(r)) + " " + hexName(nm))
+		}
 		for i := 0; i < r.Range(1, 4); i++ {
 			e("reg " + nn + " " + strconv.Itoa(pickTarget(r)) + " " + strconv.Itoa(genPrio(r)) + " " + hexName(nm))
 		}
